@@ -85,15 +85,17 @@ def work(run, names, backend):
         if not H.usable(name):
             run.note(f"{name}: no backend on this host")
             continue
-        if backend == "builtin":
+        if backend in ("builtin", "os_crypt"):
             bk = getattr(h, "backends", None)
-            if not bk or "builtin" not in bk:
+            if not bk or backend not in bk:
                 continue
             try:
-                h.set_backend("builtin")
+                if backend == "os_crypt" and not h.has_backend("os_crypt"):
+                    continue
+                h.set_backend(backend)
             except Exception as e:
-                run.violation(f"C02|{name}|builtin|set_backend|{type(e).__name__}",
-                              f"{name}: builtin backend cannot be selected: {e}", dict(name=name))
+                run.violation(f"C02|{name}|{backend}|set_backend|{type(e).__name__}",
+                              f"{name}: {backend} backend cannot be selected: {e}", dict(name=name))
                 continue
         bname = H.base_name(h)
         slist = H.settings_list(h, rng, run.tier)
@@ -110,6 +112,11 @@ def work(run, names, backend):
             pws = passwords(rng, k, name, run.tier)
             if backend == "builtin" and bname.startswith("bcrypt") or bname == "django_bcrypt_sha256" and backend == "builtin":
                 pws = pws[:3]
+            if backend == "os_crypt":
+                # the host's crypt() only takes text: long and boundary-straddling multi-byte passwords are the interesting ones here
+                pws = [(p_, k_) for p_, k_ in pws if not isinstance(p_, bytes) or H.is_utf8(p_)][:4]
+                if bname.startswith("bcrypt") or bname == "django_bcrypt_sha256":
+                    pws += [("a" + "é" * 40, "text"), ("ab" + "\u20ac" * 30, "text"), ("abc" + "\U0001f600" * 20, "text"), ("é" * 300, "text"), ("x" * 71 + "\u20ac" * 200, "text")]
             for pw, kind in pws:
                 secret = pw.encode("utf-8") if isinstance(pw, str) else pw
                 ctx = H.ctx_for(h, rng)
@@ -211,7 +218,7 @@ def refusal_ok(bname, secret, backend):
 
 def repro(name, st, pw, ctx, backend, want):
     return (f"import warnings; warnings.simplefilter('ignore')\nimport passlib.hash as H\nh = H.{name}\n"
-            + (f"h.set_backend('builtin')\n" if backend == "builtin" else "")
+            + (f"h.set_backend({backend!r})\n" if backend in ("builtin", "os_crypt") else "")
             + f"got = h.using(**{st!r}).hash({pw!r}, **{ctx!r})\nprint('passlib  :', got)\nprint('reference:', {want!r})\n"
             + "raise SystemExit(0 if got == " + repr(want) + " else 1)\n")
 
@@ -354,6 +361,29 @@ def libpass_diff(run):
             run.count(f"cmp:libpass.{name}")
 
 
+def first_call(run, name):
+    """the very first digest of a fresh interpreter (no backend loaded yet) equals the reference as well"""
+    rng = run.rng("first:" + name)
+    h = H.get(name)
+    st = {"salt": H.gen_salt(h, rng)}
+    if "rounds" in h.setting_kwds:
+        st["rounds"] = H.rounds_values(h, "quick")[0]
+    pw = H.pw_bytes(rng, 12, "ascii").decode()
+    try:
+        want = ref_for(name, pw.encode(), norm_settings(name, st), {})
+        got = H.apply(h, st).hash(pw)
+    except F.NotCovered:
+        return
+    except Exception as e:
+        run.violation(f"C02|{name}|first-call-in-process|raises|{type(e).__name__}", f"{name}: first hash of a fresh interpreter raised {type(e).__name__}: {str(e)[:100]}", dict(name=name, settings=st, password=pw))
+        return
+    run.count("first_call_cases")
+    run.case((name, "first-call-in-process"), dict(format=name, settings=st, password=pw, hash=got))
+    if got != want:
+        run.violation(f"C02|{name}|first-call-in-process|digest-mismatch", f"{name}: the first hash a fresh interpreter makes differs from the reference ({got!r} vs {want!r})",
+                      dict(name=name, settings=st, password=pw, passlib=got, reference=want))
+
+
 def body(run):
     names = H.names()
     for n in H.ARGON:
@@ -366,8 +396,13 @@ def body(run):
     bi = [n for n in names if getattr(H.get(n), "backends", None) and "builtin" in H.get(n).backends]
     for i in range(0, len(bi), 2):
         shards.append(dict(names=bi[i:i + 2], backend="builtin"))
+    oc = [n for n in names if getattr(H.get(n), "backends", None) and "os_crypt" in H.get(n).backends]
+    for i in range(0, len(oc), 3):
+        shards.append(dict(names=oc[i:i + 3], backend="os_crypt"))
     run.parallel("checks.c02", "work", shards, timeout=1200 if run.tier == "quick" else 5400,
                  env={"PASSLIB_BUILTIN_BCRYPT": "1"})
+    run.parallel("checks.c02", "first_call", [dict(name=n) for n in ("bcrypt_sha256", "django_bcrypt_sha256", "bcrypt", "ldap_bcrypt", "django_bcrypt", "sha256_crypt", "des_crypt", "scrypt")], timeout=600)
+    run.require("first_call_cases", 6)
     django_cross(run)
     libpass_diff(run)
     sun_md5_bare(run)
